@@ -1,10 +1,489 @@
-//! C14 — (stub; filled in during the build phase)
+//! C14 — emitted diagnostics are complete, well-formed and match the totals.
 
+use super::c04::violator;
 use super::PropMeta;
 use crate::engine::*;
+use crate::model::ast::*;
+use crate::model::gen;
+use crate::model::print::*;
+use crate::model::run::*;
+use crate::proc::{run, show_bytes, Scenario};
+use crate::util::*;
+use clap::Parser;
+use serde_json::{json, Value};
+use slicec::diagnostic_emitter::DiagnosticEmitter;
+use slicec::slice_options::SliceOptions;
+use std::time::Duration;
 
-pub fn meta(_m: &mut PropMeta) {}
+pub fn meta(m: &mut PropMeta) {
+    m.rule = "one diagnostic source per diagnostic kind the compiler can produce from text (30 rule violators of C04, unresolved / wrong-kind / cyclic references, containment and inheritance cycles with multi-note chains, key errors with note spans, redefinitions, deprecated uses whose reason carries quotes, backslashes, tabs and non-ASCII text, broken / malformed / ill-fitting doc comments, syntax errors), alone, in all ordered pairs and (thorough) in triples of lint sources, in one and two files and two layouts (single line / one token per line, so spans cover several lines) x {human, json} x colour {forced on, --disable-color} x --allow {none, Deprecated, All}; emitted in-process by the real DiagnosticEmitter into a buffer (options parsed by the real clap definition); plus a process-level slice through the real binary for totals, exit status, span-less diagnostics (I/O errors, DuplicateFile) and file names with spaces, quotes, backslashes and non-ASCII characters. Oracle: JSON: exactly one line per non-allowed diagnostic, each parses (serde_json) to an object with exactly the keys message, severity, span, notes, error_code whose values equal the diagnostic obtained through the API, in recorded order, nothing else in the stream; human: one 'error [code]' / 'warning [code]' header per non-allowed diagnostic in order with its message, a location line iff it has a span, one 'note:' per note; summary counts on stdout equal the numbers of headers; exit status agrees; with colours disabled no ESC byte; allowed lints leave no byte. non-trivial = at least one diagnostic is emitted and one note or allowed lint is involved; distinct = distinct (program, layout, configuration).";
+    m.explanation = "enumeration of diagnostic-producing programs x emission configurations; emitted stream re-parsed independently and compared with the diagnostics obtained through the API";
+    m.quick_bound = "44 sources alone and in all ordered pairs x 2 layouts x 12 configurations (pairs: rotating configuration)";
+    m.thorough_bound = "pairs x all 12 configurations; triples of the 14 lint/special sources";
+}
 
-pub fn families(_tier: &str) -> Vec<Box<dyn Family>> {
-    vec![]
+pub const N_SPECIAL: usize = 14;
+pub const N_SOURCES: usize = 30 + N_SPECIAL;
+
+/// Diagnostic source k with names made unique by i (each adds definitions to the file).
+pub fn diag_source(k: usize, i: usize) -> Vec<MDef> {
+    if k < 30 {
+        return vec![violator(k, i)];
+    }
+    let n = |b: &str| format!("{b}{i}");
+    let i32t = || MType::prim("int32");
+    match k - 30 {
+        0 => {
+            // deprecated use, reason with quotes, backslash, tab, non-ASCII
+            let mut d = st(&n("Old"), vec![]);
+            *d.common_mut() = d.common().clone().attr(MAttr::with("deprecated", vec![MArg::Str("say \\\"hi\\\" \\\\ é\t😀 done".into())]));
+            vec![d, st(&n("UsesOld"), vec![MField::new("a", MType::named(&n("Old"))), MField::new("b", MType::seq(MType::named(&n("Old")).opt()))])]
+        }
+        1 => {
+            let mut d = st(&n("BrokenLink"), vec![]);
+            *d.common_mut() = d.common().clone().doc(&[" See {@link Nope} and {@link AlsoNope}."]);
+            vec![d]
+        }
+        2 => {
+            let mut d = st(&n("Malformed"), vec![]);
+            *d.common_mut() = d.common().clone().doc(&[" @frob \"x\""]);
+            vec![d]
+        }
+        3 => {
+            let mut d = st(&n("Incorrect"), vec![]);
+            *d.common_mut() = d.common().clone().doc(&[" @returns: nothing", " @param a: none"]);
+            vec![d]
+        }
+        4 => vec![st(&n("Unresolved"), vec![MField::new("a", MType::named("No::Such::Type"))])],
+        5 => vec![st(&n("WrongKind"), vec![MField::new("a", MType::named("Lib::HI"))])],
+        6 => vec![alias(&n("CycA"), MType::named(&n("CycB"))), alias(&n("CycB"), MType::named(&n("CycA")))],
+        7 => vec![st(&n("RingA"), vec![MField::new("b", MType::named(&n("RingB")).opt())]), st(&n("RingB"), vec![MField::new("c", MType::seq(MType::named(&n("RingC"))))]), st(&n("RingC"), vec![MField::new("a", MType::named(&n("RingA")))])],
+        8 => vec![iface(&n("LoopI"), vec![MType::named(&n("LoopJ"))], vec![]), iface(&n("LoopJ"), vec![MType::named(&n("LoopI"))], vec![])],
+        9 => vec![cst(&n("BadKey"), vec![MField::new("f", MType::prim("float32")), MField::new("o", i32t().opt())]), st(&n("UsesBadKey"), vec![MField::new("d", MType::dict(MType::named(&n("BadKey")), i32t()))])],
+        10 => vec![st(&n("Twice"), vec![]), custom(&n("Twice"))],
+        11 => {
+            // deprecated operation-less interface used as base: note with span
+            let mut d = iface(&n("OldI"), vec![], vec![]);
+            *d.common_mut() = d.common().clone().attr(MAttr::new("deprecated"));
+            vec![d, iface(&n("DerivedI"), vec![MType::named(&n("OldI"))], vec![])]
+        }
+        12 => {
+            let mut o = op("o", vec![MParam::new("a", i32t())], MRet::Single { tag: None, stream: false, ty: i32t() });
+            o.c = o.c.doc(&[" @param zz: no such parameter", " @returns named: single return is unnamed"]);
+            vec![iface(&n("DocI"), vec![], vec![o])]
+        }
+        _ => vec![en(&n("Multi"), Some(MType::prim("uint8")), vec![enumerator_v("A", MInt::dec(300)), enumerator_v("B", MInt::dec(300)), MEnumerator { c: MCommon::new("C"), fields: Some(vec![]), value: None }])],
+    }
+}
+
+fn program_of(ks: &[usize], two_files: bool) -> Program {
+    let mut f = MFile::module("M");
+    let mut g = MFile::module("M::N");
+    for (i, k) in ks.iter().enumerate() {
+        let defs = diag_source(*k, i);
+        if two_files && i % 2 == 1 {
+            g.defs.extend(defs);
+        } else {
+            f.defs.extend(defs);
+        }
+    }
+    if two_files {
+        vec![f, g, gen::lib_file()]
+    } else {
+        vec![f, gen::lib_file()]
+    }
+}
+
+#[derive(Clone, Copy, Debug)]
+pub struct Config {
+    pub json: bool,
+    pub color: bool,
+    pub allow: u8, // 0 none, 1 Deprecated, 2 All
+}
+pub fn config(i: u64) -> Config {
+    Config { json: i % 2 == 1, color: (i / 2) % 2 == 1, allow: ((i / 4) % 3) as u8 }
+}
+impl Config {
+    pub fn argv(&self) -> Vec<String> {
+        let mut v = vec!["slicec".to_string()];
+        if self.json {
+            v.extend(["--diagnostic-format".to_string(), "json".to_string()]);
+        }
+        if !self.color {
+            v.push("--disable-color".to_string());
+        }
+        match self.allow {
+            1 => v.extend(["-A".to_string(), "Deprecated".to_string()]),
+            2 => v.extend(["--allow".to_string(), "All".to_string()]),
+            _ => {}
+        }
+        v
+    }
+}
+
+pub fn strip_ansi(s: &str) -> String {
+    let mut o = String::new();
+    let mut it = s.chars().peekable();
+    while let Some(c) = it.next() {
+        if c == '\u{1b}' {
+            if it.peek() == Some(&'[') {
+                it.next();
+                while let Some(x) = it.next() {
+                    if x.is_ascii_alphabetic() {
+                        break;
+                    }
+                }
+            }
+            continue;
+        }
+        o.push(c);
+    }
+    o
+}
+
+/// Check an emitted stream against the diagnostics obtained through the API.
+pub fn check_stream(stream: &str, diags: &[DiagObs], cfg: &Config, fam: &str, out: &mut CaseOut, input: &dyn Fn() -> String) {
+    let emitted: Vec<&DiagObs> = diags.iter().filter(|d| d.level != "allowed").collect();
+    if !cfg.color && stream.contains('\u{1b}') {
+        out.violate(format!("c14/{fam}/escape-sequence-with-colours-disabled/{}", if cfg.json { "json" } else { "human" }), format!("--disable-color but the output contains an ESC byte: {:?}\n{}", truncate(stream, 300), input()));
+    }
+    if cfg.json {
+        let lines: Vec<&str> = stream.split('\n').collect();
+        // the stream is newline-terminated lines: last split element is empty
+        let (body, tail) = lines.split_at(lines.len().saturating_sub(1));
+        if !tail.iter().all(|t| t.is_empty()) {
+            out.violate(format!("c14/{fam}/json/stream-not-line-terminated"), format!("JSON stream does not end with a newline: {:?}\n{}", truncate(stream, 300), input()));
+        }
+        if body.len() != emitted.len() {
+            out.violate(format!("c14/{fam}/json/line-count"), format!("{} non-allowed diagnostic(s) but {} line(s) in the JSON stream:\n{}\n{}", emitted.len(), body.len(), truncate(stream, 600), input()));
+            return;
+        }
+        for (line, d) in body.iter().zip(emitted.iter()) {
+            let v: Value = match serde_json::from_str(line) {
+                Ok(v) => v,
+                Err(e) => {
+                    out.violate(format!("c14/{fam}/json/line-does-not-parse"), format!("line {line:?} is not a JSON value: {e}\n{}", input()));
+                    continue;
+                }
+            };
+            let Some(obj) = v.as_object() else {
+                out.violate(format!("c14/{fam}/json/not-an-object"), format!("line {line:?}\n{}", input()));
+                continue;
+            };
+            let mut keys: Vec<&str> = obj.keys().map(|k| k.as_str()).collect();
+            keys.sort();
+            if keys != ["error_code", "message", "notes", "severity", "span"] {
+                out.violate(format!("c14/{fam}/json/keys"), format!("object has keys {keys:?}\n{}", input()));
+                continue;
+            }
+            let span_json = |f: &Option<String>, s: &Option<crate::model::tree::Sp>| match (f, s) {
+                (Some(f), Some(s)) => json!({"start": {"row": s.sr, "col": s.sc}, "end": {"row": s.er, "col": s.ec}, "file": f}),
+                _ => Value::Null,
+            };
+            let exp = json!({
+                "message": d.message,
+                "severity": d.level,
+                "span": span_json(&d.file, &d.span),
+                "notes": d.notes.iter().map(|(m, s)| json!({"message": m, "span": match s { Some((f, s)) => span_json(&Some(f.clone()), &Some(*s)), None => Value::Null }})).collect::<Vec<_>>(),
+                "error_code": d.code,
+            });
+            if v != exp {
+                let field = ["message", "severity", "span", "notes", "error_code"].iter().find(|k| v[**k] != exp[**k]).unwrap_or(&"?");
+                out.violate(format!("c14/{fam}/json/value-differs/{field}"), format!("emitted {line}\nbut the diagnostic is {exp}\n{}", input()));
+            }
+        }
+    } else {
+        let text = strip_ansi(stream);
+        // headers in order
+        let mut headers: Vec<(String, String, String)> = vec![]; // (level, code, message)
+        let mut notes_after: Vec<usize> = vec![];
+        let mut locs_after: Vec<usize> = vec![];
+        for line in text.lines() {
+            let parse = |prefix: &str| -> Option<(String, String)> {
+                let rest = line.strip_prefix(prefix)?.strip_prefix(" [")?;
+                let (code, msg) = rest.split_once("]: ")?;
+                Some((code.to_string(), msg.to_string()))
+            };
+            if let Some((c, m)) = parse("error") {
+                headers.push(("error".into(), c, m));
+                notes_after.push(0);
+                locs_after.push(0);
+            } else if let Some((c, m)) = parse("warning") {
+                headers.push(("warning".into(), c, m));
+                notes_after.push(0);
+                locs_after.push(0);
+            } else if line.starts_with("note: ") {
+                if let Some(l) = notes_after.last_mut() {
+                    *l += 1;
+                }
+            } else if line.starts_with(" --> ") {
+                if let Some(l) = locs_after.last_mut() {
+                    *l += 1;
+                }
+            }
+        }
+        if emitted.is_empty() && !text.is_empty() {
+            out.violate(format!("c14/{fam}/human/output-without-diagnostics"), format!("nothing to report but the stream holds {:?}\n{}", truncate(&text, 300), input()));
+        }
+        // a message may span several lines (doc-comment text): compare the first line
+        let exp: Vec<(String, String, String)> = emitted.iter().map(|d| (d.level.clone(), d.code.clone(), d.message.lines().next().unwrap_or("").to_string())).collect();
+        if headers != exp {
+            let i = headers.iter().zip(exp.iter()).position(|(a, b)| a != b).unwrap_or(headers.len().min(exp.len()));
+            out.violate(
+                format!("c14/{fam}/human/headers-differ"),
+                format!("{} header(s) emitted, {} diagnostic(s) to report; first difference at #{i}: emitted {:?}, expected {:?}\n--- stream ---\n{}\n{}", headers.len(), exp.len(), headers.get(i), exp.get(i), truncate(&text, 1500), input()),
+            );
+            return;
+        }
+        for (i, d) in emitted.iter().enumerate() {
+            // note messages may also contain line breaks: count notes by the API, lines starting with "note: " >= notes
+            if notes_after[i] != d.notes.len() {
+                out.violate(format!("c14/{fam}/human/note-count"), format!("{} {}: {} note(s) but {} 'note:' line(s)\n--- stream ---\n{}\n{}", d.level, d.code, d.notes.len(), notes_after[i], truncate(&text, 1500), input()));
+            }
+            let exp_locs = d.span.is_some() as usize + d.notes.iter().filter(|n| n.1.is_some()).count();
+            if locs_after[i] != exp_locs {
+                out.violate(format!("c14/{fam}/human/location-lines"), format!("{} {}: expected {} location line(s), found {}\n--- stream ---\n{}\n{}", d.level, d.code, exp_locs, locs_after[i], truncate(&text, 1500), input()));
+            }
+            if let (Some(f), Some(s)) = (&d.file, &d.span) {
+                let want = format!(" --> {}:{}:{}", f, s.sr, s.sc);
+                if !text.lines().any(|l| l == want) {
+                    out.violate(format!("c14/{fam}/human/location-text"), format!("no line {want:?} in the stream\n--- stream ---\n{}\n{}", truncate(&text, 1500), input()));
+                }
+            }
+        }
+    }
+}
+
+pub struct Emission {
+    pub arity: usize,
+    pub all_configs: bool,
+    /// restrict to the special sources (for triples)
+    pub specials_only: bool,
+}
+impl Emission {
+    fn base(&self) -> u64 {
+        if self.specials_only {
+            N_SPECIAL as u64
+        } else {
+            N_SOURCES as u64
+        }
+    }
+    fn decode(&self, idx: u64) -> (Vec<usize>, bool, bool, Config) {
+        let ncfg = if self.all_configs { 12 } else { 1 };
+        let ci = idx % ncfg;
+        let mut r = idx / ncfg;
+        let layout_lines = r % 2 == 1;
+        r /= 2;
+        let two_files = r % 2 == 1;
+        r /= 2;
+        let mut ks = vec![];
+        for _ in 0..self.arity {
+            let k = (r % self.base()) as usize;
+            ks.push(if self.specials_only { 30 + k } else { k });
+            r /= self.base();
+        }
+        let cfg = if self.all_configs { config(ci) } else { config(idx / 4 + idx) };
+        (ks, two_files, layout_lines, cfg)
+    }
+}
+impl Family for Emission {
+    fn name(&self) -> String {
+        format!("emission/{} of {} diagnostic sources x {{1,2}} files x 2 layouts x {}", ["", "singles", "ordered pairs", "ordered triples"][self.arity], self.base(), if self.all_configs { "12 configurations" } else { "rotating configuration" })
+    }
+    fn len(&self) -> u64 {
+        self.base().pow(self.arity as u32) * 4 * if self.all_configs { 12 } else { 1 }
+    }
+    fn describe(&self, idx: u64) -> Value {
+        let (ks, two, lines, cfg) = self.decode(idx);
+        let p = program_of(&ks, two);
+        let layout = Layout::uniform(if lines { Sep::Newline } else { Sep::Space }, Commas::None);
+        let r = render_program(&p, &layout);
+        json!({"sources": ks, "files": r.iter().take(if two { 2 } else { 1 }).map(|x| x.text.clone()).collect::<Vec<_>>(), "argv": cfg.argv()})
+    }
+    fn run(&self, idx: u64) -> CaseOut {
+        let (ks, two, lines, cfg) = self.decode(idx);
+        let p = program_of(&ks, two);
+        let layout = Layout::uniform(if lines { Sep::Newline } else { Sep::Space }, Commas::None);
+        let rendered = render_program(&p, &layout);
+        let texts: Vec<String> = rendered.iter().map(|r| r.text.clone()).collect();
+        let mut out = CaseOut::new(hash_str(&format!("{texts:?}{cfg:?}")));
+        out.validated = 1;
+        let input = || format!("argv {:?}\n--- input ---\n{}", cfg.argv(), texts[..texts.len() - 1].join("\n--- next file ---\n"));
+        let opts = match SliceOptions::try_parse_from(cfg.argv()) {
+            Ok(o) => o,
+            Err(e) => {
+                out.violate("c14/emission/options-rejected", format!("{:?}: {e}", cfg.argv()));
+                return out;
+            }
+        };
+        let c = match compile_rendered(rendered, Some(&opts)) {
+            Ok(c) => c,
+            Err((loc, msg)) => {
+                out.class = "panic".into();
+                out.violate(format!("c14/emission/panic@{loc}"), format!("compiling panicked at {loc}: {msg}\n{}", input()));
+                return out;
+            }
+        };
+        let Compiled { files, diags, raw_diags, .. } = c;
+        let mut buf: Vec<u8> = vec![];
+        console::set_colors_enabled(cfg.color);
+        console::set_colors_enabled_stderr(cfg.color);
+        let r = guarded(|| {
+            let mut em = DiagnosticEmitter::new(&mut buf, &opts, &files);
+            em.emit_diagnostics(raw_diags).map_err(|e| e.to_string())
+        });
+        console::set_colors_enabled(false);
+        console::set_colors_enabled_stderr(false);
+        match r {
+            Err((loc, msg)) => {
+                out.class = "panic".into();
+                out.violate(format!("c14/emission/panic@{loc}"), format!("emitting panicked at {loc}: {msg}\n{}", input()));
+                return out;
+            }
+            Ok(Err(e)) => {
+                out.violate("c14/emission/emitter-error", format!("emit_diagnostics failed: {e}\n{}", input()));
+                return out;
+            }
+            Ok(Ok(())) => {}
+        }
+        let stream = String::from_utf8_lossy(&buf).to_string();
+        let shown = diags.iter().filter(|d| d.level != "allowed").count();
+        out.nontrivial = shown > 0 && (diags.iter().any(|d| !d.notes.is_empty()) || diags.len() != shown);
+        out.class = format!("{}{}:{}shown/{}allowed/{}notes", if cfg.json { "json" } else { "human" }, if cfg.color { "+colour" } else { "" }, shown.min(6), (diags.len() - shown).min(3), diags.iter().map(|d| d.notes.len()).sum::<usize>().min(6));
+        out.steps = diags.len() as u64 + 1;
+        check_stream(&stream, &diags, &cfg, "emission", &mut out, &input);
+        out
+    }
+}
+
+/// Process-level slice: totals on stdout, exit status, span-less diagnostics, hostile file names.
+pub struct Binary;
+const NAMES: [&str; 6] = ["plain.slice", "with space.slice", "quo\"te.slice", "back\\slash.slice", "ünï 😀.slice", "tab\there.slice"];
+impl Family for Binary {
+    fn name(&self) -> String {
+        "binary/6 file names x 8 program shapes (clean, warnings, errors, notes, missing file, duplicate file, directory, two files) x 12 configurations through the real slicec binary".into()
+    }
+    fn len(&self) -> u64 {
+        6 * 8 * 12
+    }
+    fn hang_secs(&self) -> f64 {
+        60.0
+    }
+    fn describe(&self, idx: u64) -> Value {
+        json!({"file_name": NAMES[(idx % 6) as usize], "shape": (idx / 6) % 8, "argv_options": config(idx / 48).argv()[1..].to_vec()})
+    }
+    fn run(&self, idx: u64) -> CaseOut {
+        let name = NAMES[(idx % 6) as usize];
+        let shape = (idx / 6) % 8;
+        let cfg = config(idx / 48);
+        let mut out = CaseOut::new(hash_str(&format!("c14bin{idx}")));
+        out.validated = 1;
+        out.nontrivial = true;
+        let mut sc = Scenario::default();
+        let text = match shape {
+            0 => "module M\nstruct S {}\n".to_string(),
+            1 => "module M\n[deprecated(\"q\\\"uote\")] struct D {}\nstruct U { d: D }\n/// {@link Nope}\nstruct L {}\n".to_string(),
+            2 => "module M\ncompact struct E {}\nstruct F { a: Nope }\n".to_string(),
+            3 => "module M\nstruct A { b: B }\nstruct B { a: A }\n".to_string(),
+            _ => "module M\n\t[deprecated] struct D {}\n\tstruct U { d: D? }\n".to_string(),
+        };
+        sc.tree.push((name.to_string(), crate::proc::Node::File(text.into_bytes())));
+        let mut argv: Vec<String> = vec![name.to_string()];
+        match shape {
+            4 => argv.push("missing file.slice".into()),
+            5 => argv.push(name.to_string()),
+            6 => {
+                sc.tree.push(("a dir".into(), crate::proc::Node::Dir));
+                argv.push("a dir".into());
+            }
+            7 => {
+                sc.tree.push(("other é.slice".into(), crate::proc::Node::File(b"module O\n/// @bogus\nstruct X { y: M::Nope }\n".to_vec())));
+                argv.push("other é.slice".into());
+            }
+            _ => {}
+        }
+        argv.extend(cfg.argv()[1..].iter().cloned());
+        if cfg.color {
+            sc.env.push(("CLICOLOR_FORCE".into(), "1".into()));
+            sc.env.push(("NO_COLOR".into(), "".into()));
+        }
+        sc.argv = argv;
+        let obs = run(&sc, Duration::from_secs(20));
+        let stderr = String::from_utf8_lossy(&obs.stderr).to_string();
+        let stdout = String::from_utf8_lossy(&obs.stdout).to_string();
+        let input = || format!("argv {:?}\n--- stderr ---\n{}\n--- stdout ---\n{}", obs.argv, show_bytes(&obs.stderr), show_bytes(&obs.stdout));
+        if obs.timed_out || obs.signal.is_some() || obs.panic_location().is_some() {
+            out.violate("c14/binary/crash-or-hang", input());
+            return out;
+        }
+        if !cfg.color && (stderr.contains('\u{1b}') || stdout.contains('\u{1b}')) {
+            out.violate("c14/binary/escape-sequence-with-colours-disabled", input());
+        }
+        let (errors, warnings);
+        if cfg.json {
+            let mut e = 0;
+            let mut w = 0;
+            for line in stderr.lines() {
+                match serde_json::from_str::<Value>(line) {
+                    Ok(v) if v.is_object() => {
+                        let mut keys: Vec<&str> = v.as_object().unwrap().keys().map(|k| k.as_str()).collect();
+                        keys.sort();
+                        if keys != ["error_code", "message", "notes", "severity", "span"] {
+                            out.violate("c14/binary/json/keys", format!("keys {keys:?}\n{}", input()));
+                        }
+                        match v["severity"].as_str() {
+                            Some("error") => e += 1,
+                            Some("warning") => w += 1,
+                            other => out.violate("c14/binary/json/severity", format!("severity {other:?}\n{}", input())),
+                        }
+                    }
+                    _ => out.violate("c14/binary/json/line-does-not-parse", format!("line {line:?}\n{}", input())),
+                }
+            }
+            if !stdout.trim().is_empty() {
+                // the summary is a human-format feature
+                out.violate("c14/binary/json/summary-on-stdout", input());
+            }
+            errors = e;
+            warnings = w;
+        } else {
+            let t = strip_ansi(&stderr);
+            errors = t.lines().filter(|l| l.starts_with("error [")).count();
+            warnings = t.lines().filter(|l| l.starts_with("warning [")).count();
+            let so = strip_ansi(&stdout);
+            let num_after = |marker: &str| -> Option<usize> { so.lines().find(|l| l.contains(marker)).and_then(|l| l.split(marker).nth(1)).and_then(|r| r.trim().split(' ').next().map(|x| x.to_string())).and_then(|x| x.parse().ok()) };
+            let sw = num_after("Compilation generated").unwrap_or(0);
+            let se = num_after("Compilation failed with").unwrap_or(0);
+            if sw != warnings || se != errors {
+                out.violate("c14/binary/human/summary-counts", format!("summary says {sw} warning(s) / {se} error(s) but {warnings} / {errors} were shown\n{}", input()));
+            }
+        }
+        let code = obs.exit_code.unwrap_or(-1);
+        if (errors > 0) != (code != 0) {
+            out.violate("c14/binary/exit-status", format!("exit status {code} with {errors} error(s) emitted\n{}", input()));
+        }
+        // expected presence per shape
+        let exp_err = matches!(shape, 2 | 3 | 4 | 6 | 7);
+        if exp_err != (errors > 0) {
+            out.violate("c14/binary/expected-errors", format!("shape {shape}: errors expected {exp_err}, {errors} emitted\n{}", input()));
+        }
+        let lintish = matches!(shape, 1 | 5) && cfg.allow != 2;
+        if lintish && warnings == 0 && !(shape == 5 && cfg.allow == 2) {
+            out.violate("c14/binary/expected-warnings", format!("shape {shape}: warnings expected, none emitted\n{}", input()));
+        }
+        if cfg.allow == 2 && warnings > 0 {
+            out.violate("c14/binary/allowed-lint-left-a-trace", format!("--allow All but {warnings} warning(s) emitted\n{}", input()));
+        }
+        out.class = format!("{}e{}w:exit{}", errors.min(3), warnings.min(3), code);
+        out
+    }
+}
+
+pub fn families(tier: &str) -> Vec<Box<dyn Family>> {
+    let quick = tier == "quick";
+    let mut v: Vec<Box<dyn Family>> = vec![Box::new(Emission { arity: 1, all_configs: true, specials_only: false }), Box::new(Binary), Box::new(Emission { arity: 2, all_configs: !quick, specials_only: false })];
+    if !quick {
+        v.push(Box::new(Emission { arity: 3, all_configs: false, specials_only: true }));
+    }
+    v
 }
